@@ -231,12 +231,7 @@ def run_leaf(kind, cap, nproc, depth, stack, shard, nshards, illformed=False):
     return mon, T, H, env, exc, skipped, ch
 
 
-UNITS = []
-for _kind, _caps in (("rprs", (1, 2)), ("rrs", (1, 2)), ("filter", (1, 2)), ("bufferstore_fifo", (1, 2)),
-                     ("bufferstore_lifo", (2,)), ("fleet", (1, 2))):
-    for _cap in _caps:
-        for _np in (1, 2):
-            UNITS.append((_kind, _cap, _np))
+from ..plan import E2_UNITS as UNITS
 
 
 def run_unit(index, params):
